@@ -333,11 +333,21 @@ func rollbackKey(db *NoKV.DB, reader *Reader, key []byte, startTs uint64) *pb.Ke
 		}
 		return nil
 	}
-	if err := db.DeleteVersionedEntry(kv.CFLock, key, lockColumnTs); err != nil && err != utils.ErrKeyNotFound {
+	// only the lock of this transaction may be removed.
+	// the data tombstone default@startTs is only written when this
+	// transaction really prewrote the key (it holds the lock); a tombstone below the
+	// start ts of newer data would otherwise shadow that data in point lookups.
+	lock, err := reader.GetLock(key)
+	if err != nil {
 		return keyErrorRetryable(err)
 	}
-	if err := db.DeleteVersionedEntry(kv.CFDefault, key, startTs); err != nil && err != utils.ErrKeyNotFound {
-		return keyErrorRetryable(err)
+	if lock != nil && lock.Ts == startTs {
+		if err := db.DeleteVersionedEntry(kv.CFLock, key, lockColumnTs); err != nil && err != utils.ErrKeyNotFound {
+			return keyErrorRetryable(err)
+		}
+		if err := db.DeleteVersionedEntry(kv.CFDefault, key, startTs); err != nil && err != utils.ErrKeyNotFound {
+			return keyErrorRetryable(err)
+		}
 	}
 	rollback := EncodeWrite(Write{Kind: pb.Mutation_Rollback, StartTs: startTs})
 	if err := db.SetVersionedEntry(kv.CFWrite, key, startTs, rollback, 0); err != nil {
